@@ -1451,10 +1451,14 @@ func c10Replay(c *lib.Ctx, w *c10World) {
 	}
 }
 
+// a family of histories, generated on demand (index -> history) so that the large enumerations are
+// never held in memory as a whole
 type c10Family struct {
 	name  string
-	sweep bool
-	lines []string
+	label string // histogram bucket
+	sweep bool   // seed-independent, exhaustively enumerated
+	count int
+	gen   func(i int) c10Hist
 }
 
 func runC10(c *lib.Ctx) {
@@ -1467,67 +1471,37 @@ func runC10(c *lib.Ctx) {
 		c10Replay(c, w)
 		return
 	}
-	c.Ev.Coverage["rule"] = "case = one history (defmethod / remove-method / call operations on a fresh generic function); every call of it is compared (trace of body ids with :around enter/leave, next-method-p values, value or condition class); non-trivial = at least one call after >= 2 mutations one of which came after an earlier call; distinct by history line"
+	c.Ev.Coverage["rule"] = "case = one history (defmethod / remove-method / call operations on a fresh generic function); every call of it is compared (trace of body ids with :around enter/leave, next-method-p values, value or condition class); non-trivial = at least one call after >= 2 mutations one of which came after an earlier call; distinct by history (enumeration index within its family, or the history line for random ones)"
 	c.Ev.Coverage["traces_validated_against_impl"] = 0
 	if p := w.chainProblem(); p != "" {
 		c.ReportBroken("precondition: class precedence lists of the test classes", map[string]any{"observed": p,
 			"expected": "Hierarchy() of the argument objects lists the class chain most specific first"})
 		return
 	}
-	seen := map[string]bool{}
-	calls := 0
-	account := func(family string, h c10Hist, line string) {
-		nt := h.nontrivial()
-		c.Ev.Case(line, nt)
-		c.Ev.Hist("family", family)
-		c.Ev.Hist("length", fmt.Sprintf("%02d", (len(h.ops)/5)*5))
-		for _, op := range h.ops {
-			switch op.kind {
-			case 'd':
-				c.Ev.Hist("op", "defmethod-"+string(op.qual))
-			case 'r':
-				c.Ev.Hist("op", "remove-"+string(op.qual))
-			default:
-				c.Ev.Hist("op", "call")
-				calls++
-			}
-		}
-	}
 
 	// --- families
 	var fams []c10Family
 	alphas := c10Alphabets()
-	exLen := c.Scale(4, 6)
-	for _, a := range alphas {
-		f := c10Family{name: fmt.Sprintf("exhaustive:%s:len%d", a.name, exLen), sweep: true}
-		cnt := c10EnumCount(a, exLen)
-		for i := 0; i < cnt; i++ {
-			h := w.instantiate(a, c10EnumDigits(a, exLen, i))
-			l := h.line(w)
-			account("exhaustive:"+a.name, h, l)
-			f.lines = append(f.lines, l)
-		}
-		fams = append(fams, f)
+	enum := func(label string, a c10Alphabet, length int) {
+		fams = append(fams, c10Family{name: fmt.Sprintf("exhaustive:%s:len%d", a.name, length), label: label + ":" + a.name, sweep: true,
+			count: c10EnumCount(a, length),
+			gen:   func(i int) c10Hist { return w.instantiate(a, c10EnumDigits(a, length, i)) }})
 	}
-	{
-		// one deeper enumeration: quick picks an alphabet by seed at length 5; thorough the deep alphabet at 7
-		a, length := alphas[int(c.Seed)%len(alphas)], 5
-		if c.Thorough() {
-			a, length = c10DeepAlphabet(), 7
-		}
-		f := c10Family{name: fmt.Sprintf("exhaustive:%s:len%d", a.name, length), sweep: true}
-		cnt := c10EnumCount(a, length)
-		for i := 0; i < cnt; i++ {
-			h := w.instantiate(a, c10EnumDigits(a, length, i))
-			l := h.line(w)
-			account("exhaustive-deep:"+a.name, h, l)
-			f.lines = append(f.lines, l)
-		}
-		fams = append(fams, f)
+	// every reduced alphabet exhaustively: all histories of exactly this length that end in a call
+	// (every shorter history ending in a call is a prefix of one of them, and all calls are compared)
+	for _, a := range alphas {
+		enum("exhaustive", a, c.Scale(5, 6))
+	}
+	if c.Thorough() {
+		// deeper: one of the alphabets (by seed) and the small alphabet one step further
+		enum("exhaustive-deep", alphas[int(c.Seed)%len(alphas)], 7)
+		enum("exhaustive-deep", c10DeepAlphabet(), 8)
+	} else {
+		enum("exhaustive-deep", c10DeepAlphabet(), 6)
 	}
 	{
 		// spelling sweep: t specializers written as bare parameters, every qualifier, 1 and 2 arguments
-		f := c10Family{name: "sweep:bare-parameter", sweep: true}
+		var hs []c10Hist
 		for n := 1; n <= 2; n++ {
 			for _, q := range "pbar" {
 				for _, implicit := range []bool{false, true} {
@@ -1536,33 +1510,28 @@ func runC10(c *lib.Ctx) {
 					for i := range arg {
 						arg[i] = w.classID["c10b"]
 					}
-					h := c10Hist{n: n, implicit: implicit, ops: []c10Op{
+					hs = append(hs, c10Hist{n: n, implicit: implicit, ops: []c10Op{
 						{kind: 'd', qual: byte(q), key: key, id: 11, mode: 'g', bare: true},
 						{kind: 'c', key: arg},
 						{kind: 'd', qual: byte(q), key: key, id: 12, mode: 'g', bare: true},
 						{kind: 'c', key: arg},
 						{kind: 'r', qual: byte(q), key: key},
 						{kind: 'c', key: arg},
-					}}
-					l := h.line(w)
-					account("sweep:bare-parameter", h, l)
-					f.lines = append(f.lines, l)
+					}})
 				}
 			}
 		}
-		fams = append(fams, f)
+		fams = append(fams, c10Family{name: "sweep:bare-parameter", label: "sweep:bare-parameter", sweep: true, count: len(hs),
+			gen: func(i int) c10Hist { return hs[i] }})
 	}
 	{
-		f := c10Family{name: "random-long", sweep: false}
-		for i, n := 0, c.Scale(3000, 60000); i < n; i++ {
-			h := w.randomHistory(c.Rng)
-			l := h.line(w)
-			account("random-long", h, l)
-			f.lines = append(f.lines, l)
+		var hs []c10Hist
+		for i, n := 0, c.Scale(4000, 80000); i < n; i++ {
+			hs = append(hs, w.randomHistory(c.Rng))
 		}
-		fams = append(fams, f)
+		fams = append(fams, c10Family{name: "random-long", label: "random-long", sweep: false, count: len(hs),
+			gen: func(i int) c10Hist { return hs[i] }})
 	}
-
 	if only := os.Getenv("VH_C10_ONLY"); only != "" { // development aid: restrict to matching families
 		var keep []c10Family
 		for _, f := range fams {
@@ -1572,22 +1541,20 @@ func runC10(c *lib.Ctx) {
 		}
 		fams = keep
 	}
-	// --- run, sharded
-	type job struct {
-		fam   int
-		lines []string
-	}
+
+	// --- run, sharded over worker processes
+	type job struct{ fam, from, to int }
 	var jobs []job
 	total := 0
 	for fi, f := range fams {
-		total += len(f.lines)
-		chunk := 4000
-		for i := 0; i < len(f.lines); i += chunk {
+		total += f.count
+		const chunk = 5000
+		for i := 0; i < f.count; i += chunk {
 			j := i + chunk
-			if len(f.lines) < j {
-				j = len(f.lines)
+			if f.count < j {
+				j = f.count
 			}
-			jobs = append(jobs, job{fi, f.lines[i:j]})
+			jobs = append(jobs, job{fi, i, j})
 		}
 	}
 	workers := runtime.NumCPU() - 2
@@ -1599,6 +1566,8 @@ func runC10(c *lib.Ctx) {
 	}
 	results := make([][]c10Mismatch, len(jobs))
 	var wg sync.WaitGroup
+	var mu sync.Mutex // guards the evidence
+	calls := 0
 	next := make(chan int, len(jobs))
 	for i := range jobs {
 		next <- i
@@ -1608,12 +1577,44 @@ func runC10(c *lib.Ctx) {
 		wg.Add(1)
 		go func() {
 			defer wg.Done()
-			for i := range next {
-				results[i] = c10RunChunk(c, jobs[i].lines)
+			for ji := range next {
+				jb := jobs[ji]
+				f := fams[jb.fam]
+				lines := make([]string, 0, jb.to-jb.from)
+				hists := make([]c10Hist, 0, jb.to-jb.from)
+				for i := jb.from; i < jb.to; i++ {
+					h := f.gen(i)
+					hists = append(hists, h)
+					lines = append(lines, h.line(w))
+				}
+				results[ji] = c10RunChunk(c, lines)
+				mu.Lock()
+				for i, h := range hists {
+					key := lines[i]
+					if f.sweep {
+						key = fmt.Sprintf("%d:%d", jb.fam, jb.from+i)
+					}
+					c.Ev.Case(key, h.nontrivial())
+					c.Ev.Hist("family", f.label)
+					c.Ev.Hist("length", fmt.Sprintf("%02d", (len(h.ops)/5)*5))
+					for _, op := range h.ops {
+						switch op.kind {
+						case 'd':
+							c.Ev.Hist("op", "defmethod-"+string(op.qual))
+						case 'r':
+							c.Ev.Hist("op", "remove-"+string(op.qual))
+						default:
+							c.Ev.Hist("op", "call")
+							calls++
+						}
+					}
+				}
+				mu.Unlock()
 			}
 		}()
 	}
 	wg.Wait()
+	seen := map[string]bool{}
 	for i, ms := range results {
 		for _, m := range ms {
 			w.report(c, seen, fams[jobs[i].fam].name, fams[jobs[i].fam].sweep, m)
@@ -1624,9 +1625,10 @@ func runC10(c *lib.Ctx) {
 	{
 		var a, b []string
 		for _, f := range fams {
-			for i := 0; i < len(f.lines); i += 1 + len(f.lines)/200 {
-				a = append(a, c10ModelLine(f.lines[i]))
-				b = append(b, strings.Replace(c10ModelLine(f.lines[i]), "disp run ", "disp spec ", 1))
+			for i := 0; i < f.count; i += 1 + f.count/200 {
+				l := c10ModelLine(f.gen(i).line(w))
+				a = append(a, l)
+				b = append(b, strings.Replace(l, "disp run ", "disp spec ", 1))
 			}
 		}
 		ra, rb := c.Model(a), c.Model(b)
@@ -1689,10 +1691,10 @@ func runC10(c *lib.Ctx) {
 		c.Ev.Coverage["concurrent_calls_checked"] = concCalls
 	}
 	for _, f := range fams {
-		if 0 < len(f.lines) {
-			h, _ := c10Parse(f.lines[len(f.lines)/2])
+		if 0 < f.count {
+			h := f.gen(f.count / 2)
 			impl, model := w.check(c, h)
-			c.Ev.Sample(map[string]any{"family": f.name, "history": f.lines[len(f.lines)/2], "impl": impl, "model": model})
+			c.Ev.Sample(map[string]any{"family": f.name, "history": h.line(w), "impl": impl, "model": model})
 		}
 	}
 	c.Ev.Coverage["traces_validated_against_impl"] = calls
@@ -1701,7 +1703,7 @@ func runC10(c *lib.Ctx) {
 	c.Ev.Coverage["worker_processes"] = workers
 	fnames := []string{}
 	for _, f := range fams {
-		fnames = append(fnames, fmt.Sprintf("%s=%d", f.name, len(f.lines)))
+		fnames = append(fnames, fmt.Sprintf("%s=%d", f.name, f.count))
 	}
 	c.Ev.Coverage["families"] = fnames
 }
